@@ -306,7 +306,8 @@ def build_machine(rec, histories_out):
         @initialize(data=st.data())
         def init(self, data):
             two = data.draw(st.booleans())
-            titles = ['S', 'T'] if two else ['S']
+            # digit-only titles that differ from the sheet's own number: a title is a name, never a number
+            titles = data.draw(st.sampled_from([['S', 'T'], ['S', 'T'], ['1', '0'], ['2024', '1'], ['Data', '0']])) if two else data.draw(st.sampled_from([['S'], ['S'], ['1'], ['2024']]))
             cells = {}
             ncons = data.draw(st.integers(2, 8))
             for _ in range(ncons):
@@ -326,7 +327,7 @@ def build_machine(rec, histories_out):
                     cells['0:4:1'] = f
                 else:
                     prev = f'G{hi}' if hi else 'A1'
-                    cells[homes[hi]] = f.replace('{p}', prev)
+                    cells[homes[hi]] = f.replace('{p}', prev).replace('T!', "'" + titles[1] + "'!" if two and titles[1] != 'T' else 'T!')
                     hi += 1
             self.history = {'wb': {'titles': titles, 'cells': cells}, 'steps': []}
 
@@ -343,7 +344,8 @@ def build_machine(rec, histories_out):
                 return f'{si}:{data.draw(st.integers(1, 3))}:{data.draw(st.sampled_from([7, 9, 10, 15, 40]))}'
             if kind == 'region':
                 return f'{si}:{data.draw(st.integers(1, REGION_C))}:{data.draw(st.integers(1, REGION_R))}'
-            return f'{si}:{data.draw(st.sampled_from([7, 8, 12]))}:{data.draw(st.sampled_from([7, 9, 15]))}'
+            # beyond the used range, also in columns of two and three letters (AA, AB, BA, AAA)
+            return f'{si}:{data.draw(st.sampled_from([7, 8, 12, 27, 28, 53, 703]))}:{data.draw(st.sampled_from([1, 2, 7, 9, 15]))}'
 
         @precondition(lambda self: self.history is not None)
         @rule(data=st.data())
